@@ -116,24 +116,57 @@ def run(ctx, chk):
     else:
         chk.saw(g)
         ps = [p for p in common.mk_engine(fb).run(g) if p.kind == 'return']
+        # decision table of the method over E = elapsed(time of the last good answer): the set of E for which it answers
+        # "within the grace period" must be exactly E < 5 s, however the comparison is spelled (`E < G`, `!(E >= G)`,
+        # `G.checked_sub(E)` leaving something, a match on `E.cmp(&G)` ...)
         ok = False
         detail = fmt(ps[0].value)[:160] if ps else 'no path'
+        leafs = set()
         for p in ps:
-            n = common.cmp_norm(p.value)
-            if n is not None and n[0] in ('lt', 'le', 'gt', 'ge'):
-                a, b2 = n[1], n[2]
-                if n[0] in ('gt', 'ge'):
-                    a, b2 = b2, a
-                l = common.lin_time(b2)
-                if l is None or l.terms:
-                    # the period is kept in a field of the poller: its constructor value, provided nothing assigns it later
-                    cv = ctor_constant_of_field(fb, g, b2)
-                    if cv is not None:
-                        l = common.lin_time(cv)
-                el = a[0] == 't' and a[1] == 'instant_elapsed' and fmt(a[2][0]).startswith('*self.')
-                if l is not None and not l.terms and el:
-                    ok = l.const == GRACE_NS
-                    detail = 'within grace <=> elapsed(%s) < %d ns' % (fmt(a[2][0]), l.const)
+            for x in list(psi.walk(p.value)) + [y for c in p.conds for y in psi.walk(c[0])]:
+                if x[0] == 't' and x[1] == 'instant_elapsed' and fmt(x[2][0]).startswith('*self.'):
+                    leafs.add(x)
+        if len(leafs) == 1:
+            E = leafs.pop()
+
+            def subst(v):
+                """a period kept in a field of the poller is its constructor constant (when nothing assigns it later)"""
+                if v == E or not isinstance(v, tuple) or not v:
+                    return v
+                if v[0] == 't' and v[1] == 'field' and fmt(v).startswith('*self.'):
+                    cv = ctor_constant_of_field(fb, g, v)
+                    return cv if cv is not None else v
+                if v[0] == 't':
+                    return ('t', v[1], tuple(subst(x) if isinstance(x, tuple) and x and x[0] in ('t', 'agg') else x for x in v[2]))
+                return v
+            true_iv, bad = [], False
+            for p in ps:
+                atoms = []
+                for c in p.conds:
+                    atoms += common.time_atoms((subst(c[0]), c[1], c[2], c[3]))
+                val = p.value
+                if psi.is_int_const(val):
+                    res = bool(val[1])
+                else:
+                    a1 = common.time_atom((subst(val), '==', 1, None))
+                    if a1 is None:
+                        bad = True
+                        continue
+                    atoms.append(a1)
+                    res = True
+                lo, hi, rest = common.interval_of(atoms, {E: 1})
+                if res and lo <= hi:
+                    true_iv.append((max(lo, 0), hi))
+            true_iv.sort()
+            if not bad and true_iv:
+                lo, hi = true_iv[0]
+                for l2, h2 in true_iv[1:]:
+                    if l2 <= hi + 1:
+                        hi = max(hi, h2)
+                    else:
+                        bad = True
+                ok = not bad and lo == 0 and hi in (GRACE_NS - 1, GRACE_NS)
+                detail = 'within grace <=> elapsed(%s) in [%s, %s] ns (property: less than %d ns)' % (fmt(E[2][0]), lo, hi, GRACE_NS)
         chk.ob('C13.P2', 'grace:elapsed-lt-5s', ok, g.where(0), detail)
     # ---- P3
     t = impl.get('get_tracking')
